@@ -34,7 +34,7 @@ AllActions ==
   \cup UNION {{[op |-> "CastMove", x |-> x, how |-> o, req |-> r] : o \in {"cast", "into"}, r \in {q \in Reqs : ReqOk(q, h[x].kind)}} : x \in Used}
   \cup {[op |-> "Upcast", x |-> x] : x \in Used}
   \cup {[op |-> "Clone", x |-> x, y |-> y] : x \in Used, y \in Dst}
-  \cup {[op |-> "KidOwned", x |-> x, y |-> y] : x \in Used, y \in Dst}
+  \cup {[op |-> "KidOwned", x |-> x, y |-> y, via |-> v] : x \in Used, y \in Dst, v \in {"ref", "pin"}}
   \cup {[op |-> "KidBorrowed", x |-> x, which |-> w, sel |-> k, m |-> m, a |-> a] :
           x \in Used, w \in {"ref", "mut"}, k \in {0, 1, 2}, m \in {"ra_get", "ra_mix", "ma_add", "ma_peek"}, a \in Args}
   \cup {[op |-> "KidView", x |-> x, m |-> m, a |-> a] : x \in Used, m \in {"ra_get", "ra_mix"}, a \in Args}
